@@ -279,17 +279,29 @@ def encode_variant(flags, pool, console, table, avail, spec):
 
 
 def real_answer(console, table):
-    """(answer string, widths or None, lines or None) from real rich."""
+    """(answer string, widths or None, lines or None) from real rich; the answer ends with `|M<min> <max>`, what
+    `Table.__rich_measure__(console, options.max_width)` returns (or the error it raises)."""
     options = console.options
     max_width = options.max_width if table.width is None else table.width
     try:
-        widths = table._calculate_column_widths(console, max_width - table._extra_width)
-        lines = plain_lines(list(console.render(table, options)))
+        m = table.__rich_measure__(console, options.max_width)
+        meas = f"|M{m.minimum} {m.maximum}"
     except AssertionError:
-        return "err:AssertionError", None, None
+        meas = "|Merr:AssertionError"
     except Exception as e:
-        return "err:Other:" + type(e).__name__, None, None
-    return "W" + enc_ints(widths) + "L" + enc_str_list(lines), widths, lines
+        meas = "|Merr:Other:" + type(e).__name__
+    try:
+        widths = table._calculate_column_widths(console, max_width - table._extra_width)
+        if options.max_width < 1:
+            # Console.render returns at once ("no space to render anything"); the model is of Table.__rich_console__ itself
+            lines = plain_lines(list(table.__rich_console__(console, options)))
+        else:
+            lines = plain_lines(list(console.render(table, options)))
+    except AssertionError:
+        return "err:AssertionError" + meas, None, None
+    except Exception as e:
+        return "err:Other:" + type(e).__name__ + meas, None, None
+    return "W" + enc_ints(widths) + "L" + enc_str_list(lines) + meas, widths, lines
 
 
 # ----------------------------------------------------------------------------------------------- direct evaluation
@@ -329,9 +341,15 @@ def evaluate(ctx, console, table, avail, widths, lines, padded, spec, text_cells
             smin += max(1, 1 + pw, (c.min_width or 0) + pw)
         else:
             smin += max(1, (c.min_width + pw) if c.min_width is not None else 1)
-    in_domain = max_width >= smin and all(c.ratio is None or c.ratio >= 1 for c in table.columns) and all(p >= 0 for p in table.padding)
-    ctx.note("table:domain:" + ("in" if in_domain else "below-structural-minimum-or-degenerate"))
-    if not in_domain and any(w < 0 for w in widths):
+    ratio_ok = all(c.ratio is None or c.ratio >= 1 for c in table.columns)
+    in_domain = max_width >= smin and ratio_ok and all(p >= 0 for p in table.padding)
+    ctx.note("table:domain:" + ("in" if in_domain else "below-structural-minimum-or-zero-ratio"))
+    # no column may get a negative width, at ANY available width (a negative width breaks the rectangle: `" " * -3` is empty
+    # but the width still counts in the sum); classifier: some flexible column has a zero ratio (it is handed what is left)
+    neg = any(w < 0 for w in widths)
+    ctx.check(not neg, "widths_nonnegative", spec, f"a column got a negative width: {widths}",
+              finding="table-flexible-width-negative" if any(c.flexible and not c.ratio for c in table.columns) else None)
+    if neg:
         return
     # --- title / caption lines are not part of the body
     nt = nc = 0
@@ -542,6 +560,22 @@ def account(ctx, results):
         if len(parts) != len(r["variants"]):
             raise RuntimeError(f"table.bundle answered {len(parts)} variants for {len(r['variants'])}: {answer[:200]}")
         for (text, impl, spec), ans in zip(r["variants"], parts):
+            # `Table.__rich_measure__`: compared on its own (`|M?` = a cell would be measured outside its tabulated range)
+            ans, _, ans_m = ans.partition("|M")
+            impl, _, impl_m = impl.partition("|M")
+            ctx.evaluations += 1
+            ctx.dist["fn:table.rich_measure"] += 1
+            if ans_m == "?" or ans == "unmodelled" and ans_m == "":
+                ctx.unmodelled += 1
+                ctx.dist["table.rich_measure:unmodelled"] += 1
+            else:
+                ctx.compared += 1
+                if ans_m == impl_m:
+                    ctx.agreed += 1
+                else:
+                    if len(ctx.mismatches) < 50:
+                        ctx.mismatches.append({"request": "table.bundle variant (__rich_measure__) " + text, "model": ans_m, "impl": impl_m, "readable": spec})
+                    ctx.dist["MISMATCH:table.rich_measure"] += 1
             if ans == "unmodelled":
                 ctx.unmodelled += 1
                 ctx.dist["table.render:unmodelled"] += 1
@@ -578,7 +612,8 @@ class Bundle:
         ctx.note(f"table:cols{ncols}")
         ctx.note(f"table:rows{len(spec['rows'])}")
         ctx.note("table:box:" + str(spec["opts"].get("box")))
-        ctx.note("table:answer:" + (ans if ans.startswith("err") else "ok"))
+        ctx.note("table:answer:" + (ans.partition("|M")[0] if ans.startswith("err") else "ok"))
+        ctx.note("table:measure:" + ("err" if "|Merr" in ans else "ok"))
         if widths is not None:
             mw = (avail if table.width is None else table.width) - table._extra_width
             first = sum((table._measure_column(console, c, mw).maximum or 1) for c in table.columns)
